@@ -680,6 +680,9 @@ func scenChurn(name string, rng *vh.RNG, r *vh.Run) {
 	for _, tc := range tgCases(name, events, map[int]bool{srv.s.VerifTG(): true}, tags) {
 		r.Add(tc)
 	}
+	if tc := teardownCase(name, events, srv.s.VerifID(), srv.s.VerifTG(), tags); tc != nil {
+		r.Add(tc)
+	}
 }
 
 // scenRejects: one connection collects at least MaxInflightRPCs requests that the subnet limit
@@ -1038,6 +1041,9 @@ func scenCaps(name string, rng *vh.RNG, r *vh.Run) {
 	inventory(c)
 	tags := []string{"scen:caps"}
 	r.Add(capsCase(name, events, srv.s.VerifID(), maxIn, 16, tags))
+	if tc := teardownCase(name, events, srv.s.VerifID(), srv.s.VerifTG(), tags); tc != nil {
+		r.Add(tc)
+	}
 	for _, tc := range tgCases(name, events, map[int]bool{srv.s.VerifTG(): true}, tags) {
 		r.Add(tc)
 	}
@@ -1273,6 +1279,11 @@ func scenShutdown(name string, rng *vh.RNG, r *vh.Run) {
 	}
 	tags := []string{"scen:shutdown"}
 	r.Add(capsCase(name, events, srv.s.VerifID(), maxIn, 16, tags))
+	if tc := teardownCase(name, events, srv.s.VerifID(), srv.s.VerifTG(), tags); tc != nil {
+		r.Add(tc)
+	} else {
+		r.CountTag("teardown:not-started-before-close", 1)
+	}
 	for _, tc := range inflightCases(name, events, srv.s.VerifID(), srv.s.VerifTG(), 64, 256, tags) {
 		r.Add(tc)
 	}
@@ -1362,6 +1373,7 @@ func scenSrv(name string, rng *vh.RNG, r *vh.Run) {
 			time.Sleep(delay)
 			ctx, cancel := context.WithTimeout(context.Background(), 60*time.Second)
 			defer cancel()
+			threadgroup.VerifRecord("x.srv.stream", 0, 0) // harness marker: a stream is about to reach Serve
 			if _, err := rhp4.RPCSettings(ctx, t); err != nil {
 				errN.Add(1)
 			} else {
@@ -1372,6 +1384,7 @@ func scenSrv(name string, rng *vh.RNG, r *vh.Run) {
 	time.Sleep(closeAfter)
 	closeDone := make(chan struct{})
 	go func() {
+		threadgroup.VerifRecord("x.srv.close", 0, 0) // harness marker: names the goroutine that stops the server's group
 		srv.Close()
 		if k := gs.insideNow(); k > 0 {
 			orc(c, "server-close-returned-with-handlers-running", "Server.Close returned while %d handler(s) were running", k)
@@ -1399,6 +1412,7 @@ func scenSrv(name string, rng *vh.RNG, r *vh.Run) {
 	// work submitted after Close is refused
 	for _, t := range transports {
 		ctx, cancel := context.WithTimeout(context.Background(), 20*time.Second)
+		threadgroup.VerifRecord("x.srv.stream", 0, 0)
 		_, err := rhp4.RPCSettings(ctx, t)
 		cancel()
 		if err == nil {
@@ -1418,6 +1432,9 @@ func scenSrv(name string, rng *vh.RNG, r *vh.Run) {
 		c.Tags = append(c.Tags, "srv:refused-during-close")
 	}
 	inventory(c)
+	if tc := srvCase(name, events, []string{"scen:srv"}); tc != nil {
+		r.Add(tc)
+	}
 	for _, tc := range tgCases(name, events, nil, []string{"scen:srv"}) {
 		r.Add(tc)
 	}
